@@ -38,6 +38,9 @@ NOT_COVERED = ['bit-for-bit equality for scale factors 2^k and -1 (bounded stand
 def units(tier):
     U = [u for u in C04.units(tier) if u.name in ('sd_stop', 'rilling_stop', 'fixed_stop', 'get_next_imf[sd]', 'get_next_imf[rilling]')]
     U += [u for u in C05.units(tier) if u.name in ('_find_extrema', 'get_padded_extrema[troughs,pad=2]', 'get_padded_extrema[peaks,pad=2]')]
+    # the mask amplitude rule the masked-sift lemmas rely on (amplitude = ratio x standard deviation, scalar or one per IMF): C07 units re-run here
+    from contracts import C07
+    U += [u for u in C07.units(tier) if u.name.startswith('mask_sift[ratio_')]
     return U
 
 
@@ -277,14 +280,18 @@ def refute(tier, seed, emit):
             emit.violation('stop-rule-scale-free:sd', w, msg)
         if emit.full:
             return
-    emit.scope('mask_sift with ratio amplitudes (ratio_sig, ratio_imf) x nphases {2, 4, 3} x factors {2, 0.5, 3.7, -1, -2, -3.7}')
+    emit.scope('mask_sift with ratio amplitudes (ratio_sig, ratio_imf; scalar, and one amplitude per IMF) x nphases {2, 4, 3} x factors {2, 0.5, 3.7, -1, -2, -3.7}')
     o = {'rule': 'sd', 'step': 1, 'interp': 'splrep', 'pad': 2}
     for si, x in enumerate(sigs[:2]):
         for mode in ('ratio_sig', 'ratio_imf'):
             for P in (2, 4, 3):
                 for f in (2.0, 0.5, 3.7, -1.0, -2.0, -3.7):
+                    # scalar ratio amplitude, and one ratio amplitude per IMF (array_like mask_amp)
+                    extra = {'mask_amp_mode': mode, 'nphases': P}
+                    if (P, f) in ((2, 2.0), (4, 0.5), (4, 3.7), (2, -2.0)):
+                        extra = dict(extra, mask_amp=[1.0, 0.7, 0.5, 0.4, 0.3, 0.25, 0.2, 0.15, 0.1])
                     emit.case(('mask', si, mode, P, f), nontrivial=f < 0, contract='mask_sift')
-                    w = {'kind': 'equivariance', 'x': x.tolist(), 'opts': o, 'fn': 'mask_sift', 'transform': ['scale', f], 'extra': {'mask_amp_mode': mode, 'nphases': P},
+                    w = {'kind': 'equivariance', 'x': x.tolist(), 'opts': o, 'fn': 'mask_sift', 'transform': ['scale', f], 'extra': extra,
                          'require_exact': False}
                     ok, msg = replay(w)
                     if ok:
